@@ -1317,7 +1317,19 @@ struct Value {
             }
 
             case ValueType::Array: {
-                SizeT index;
+                // Only a decimal number names an element: "a", "" or "1/" do not, and ten or more digits cannot.
+                SizeT index  = 0;
+                SizeT offset = 0;
+
+                while ((offset < length) && (key[offset] >= DigitUtils::DigitChar::Zero) &&
+                       (key[offset] <= DigitUtils::DigitChar::Nine)) {
+                    ++offset;
+                }
+
+                if ((length == 0) || (offset != length) || (length > SizeT{9})) {
+                    return nullptr;
+                }
+
                 Digit::FastStringToNumber(index, key, length);
 
                 if (index < array_.Size()) {
